@@ -374,6 +374,9 @@ var c14ProcOps = []struct {
 		out, fe := c14KeptTemplate().String("list", map[string]any{"user": "Bob", "role": "visitor"})
 		return fmt.Sprint("OUT:", out, "|", fe)
 	}},
+	// one path, two contents of the same length written with the same modification time
+	{"evaluate note.tw holding its first content", func() string { return c14Rewritten("<b>{{ 2 * 3 }}</b> first") }},
+	{"evaluate note.tw holding its second content", func() string { return c14Rewritten("<i>{{ 2 * 5 }}</i> other") }},
 	{"evaluate a file by relative path under site-b", func() string {
 		os.Chdir(c14ProcRoot)
 		os.Chdir("site-b")
@@ -398,6 +401,17 @@ func c14KeptTemplate() *textwire.Template {
 		c14Kept = t
 	}
 	return c14Kept
+}
+
+// c14Rewritten writes the content to one fixed path with one fixed modification time and evaluates the file
+func c14Rewritten(content string) string {
+	os.Chdir(c14ProcRoot)
+	p := filepath.Join(c14ProcRoot, "note.tw")
+	if err := os.WriteFile(p, []byte(content), 0o644); err != nil {
+		return "WRITE:" + err.Error()
+	}
+	os.Chtimes(p, fixedMtime, fixedMtime)
+	return observe(textwire.EvaluateFile(p, nil)) + "|" + observe(textwire.EvaluateFile("note.tw", nil))
 }
 
 func c14Respond(t *textwire.Template, page string, data map[string]any) string {
